@@ -225,6 +225,20 @@ def run(item):
             k = min(i // M, N - 1)
             kk = k
             pts_t = tr.ti[i]
+        elif g == 'integrator':
+            # refined integrator grid: point i lies in integrator step i//r; the very last point is the final node
+            r_ = kw['refine']
+            last = (i == N * M * r_)
+            step_ = min(i // r_, N * M - 1)
+            k = min(step_ // M, N - 1)
+            kk = k
+            if lf[0] == 'x':
+                return None          # the in-between states are C08's subject
+            pts_t = tr.ti[N * M] if last else tr.ti[step_] + (tr.ti[step_ + 1] - tr.ti[step_]) * dom.const(Fr(i - step_ * r_, r_))
+            if last and lf[0] in ('p', 'v'):
+                s_ = [p for p in (spec.params if lf[0] == 'p' else spec.vars) if p.name == lf[1]][0]
+                if s_.grid == 'control+':
+                    return (tr.Pc if lf[0] == 'p' else tr.Vc)[lf[1]][N][lf[2]]
         else:
             return None
         op = lf[0]
@@ -242,14 +256,16 @@ def run(item):
                 return tr.P[lf[1]][lf[2]]
             if s.grid == 'control':
                 return tr.Pc[lf[1]][kk][lf[2]]
-            return tr.Pc[lf[1]][k if g != 'integrator' or i == N * M else kk][lf[2]] if g != 'integrator' else (tr.Pc[lf[1]][N][lf[2]] if i == N * M else tr.Pc[lf[1]][kk][lf[2]])
+            if g != 'integrator':
+                return tr.Pc[lf[1]][k][lf[2]]
+            return tr.Pc[lf[1]][N][lf[2]] if ('refine' not in kw and i == N * M) else tr.Pc[lf[1]][kk][lf[2]]
         if op == 'v':
             s = [p for p in spec.vars if p.name == lf[1]][0]
             if s.grid == '':
                 return tr.V[lf[1]][lf[2]]
             if s.grid == 'control':
                 return tr.Vc[lf[1]][kk][lf[2]]
-            return tr.Vc[lf[1]][N][lf[2]] if ((g == 'integrator' and i == N * M) or (g != 'integrator' and k == N)) else tr.Vc[lf[1]][kk][lf[2]]
+            return tr.Vc[lf[1]][N][lf[2]] if ((g == 'integrator' and 'refine' not in kw and i == N * M) or (g != 'integrator' and k == N)) else tr.Vc[lf[1]][kk][lf[2]]
         if op == 'x':
             return tr.X[k][lf[1]] if g != 'integrator' else tr.Xi[i][lf[1]]
         return None
